@@ -54,6 +54,7 @@ type ChainParams struct {
 	CommitteeDrop bool // exact genesis active count on a committee-count threshold; slashings at slot 1 drop it inside phase0
 	Phase0Leak    bool // long phase0 with a leak and wrong-target votes (needs ForkBias phase0long)
 	LowBalances   bool // small registry (33-36 validators, sync committee of 32) whose balances are cut by a phase0 leak (needs Phase0Leak)
+	SyncSeat      bool // a sync-committee member exits, is fully withdrawn while seated and gets a top-up (period 4, short exit delays)
 	DepositFork   bool // side branch sharing the pubkey cache registers another key at the next validator index first
 	ZeroHashMerge int  // 1 = the merge block carries block_hash 0, 0 = random per chain, -1 = never
 	// Retry: regenerate with another sub-seed (at most 6 times) until this counter is non-zero
@@ -135,6 +136,7 @@ func generateOnce(pr ChainParams) (res ChainResult) {
 	knobs.CommitteeDrop = knobs.CommitteeDrop || pr.CommitteeDrop
 	knobs.Phase0Leak = knobs.Phase0Leak || pr.Phase0Leak
 	knobs.LowBalances = knobs.LowBalances || pr.LowBalances
+	knobs.SyncSeat = knobs.SyncSeat || pr.SyncSeat
 	sp := TinySpec(r.Fork(), knobs)
 	if err := CheckSpec(sp); err != nil {
 		res.Err = err
@@ -148,10 +150,11 @@ func generateOnce(pr ChainParams) (res ChainResult) {
 	c = &Chain{Name: pr.Name, Scenario: sc, Spec: sp, Rng: r.Fork(), Rec: rec, BLS: NewBLSTable(), Stats: NewStats(),
 		Planned: map[common.Epoch]*EpochPlan{}, Vars: map[string]int{}, depositors: map[common.BLSPubkey]GenVal{},
 		slashedSet: map[common.ValidatorIndex]bool{}, exitSet: map[common.ValidatorIndex]bool{}, activated: map[common.ValidatorIndex]bool{},
-		aggDone: map[common.Root]bool{}, Epochs: pr.Epochs, Absent: map[common.ValidatorIndex]bool{}, justified: map[common.Epoch]bool{}, modeOf: map[common.Epoch]string{}, wrongTargetIncluded: map[common.Epoch]int{}}
+		aggDone: map[common.Root]bool{}, Epochs: pr.Epochs, Absent: map[common.ValidatorIndex]bool{}, justified: map[common.Epoch]bool{}, modeOf: map[common.Epoch]string{}, wrongTargetIncluded: map[common.Epoch]int{}, zeroKeys: map[KeyNum]bool{}, zeroIndex: map[common.ValidatorIndex]bool{}, Protected: map[common.ValidatorIndex]bool{}}
 	c.OpRate = sc.Rates
 	c.CoverForks = pr.CoverForks
 	c.Phase0LeakMix = pr.Phase0Leak
+	c.SyncSeat = pr.SyncSeat && !pr.Plain
 	c.LowBalances = pr.LowBalances && !pr.Plain
 	c.CommitteeDropChain = pr.CommitteeDrop && !pr.Plain
 	c.ZeroHashMerge = pr.ZeroHashMerge > 0 || pr.ZeroHashMerge == 0 && c.Rng.Chance(35)
@@ -196,6 +199,17 @@ func generateOnce(pr ChainParams) (res ChainResult) {
 	}
 	c.noteState(c.St)
 	c.initSets()
+	if c.LowBalances {
+		// from the altair fork on 40 % of the registry stays offline: the leak goes on and their effective balances move at
+		// every epoch transition, also the one that draws a sync committee
+		c.lateAbsent = map[common.ValidatorIndex]bool{}
+		c.lateAbsentFrom = sp.ALTAIR_FORK_EPOCH
+		for i := range c.Vals {
+			if c.Rng.Chance(40) {
+				c.lateAbsent[common.ValidatorIndex(i)] = true
+			}
+		}
+	}
 	if pr.DepositFork {
 		c.DepositForkEpisode()
 	}
